@@ -65,6 +65,11 @@ func DrawBatch(t *rapid.T) BatchCase {
 
 // RunBatch generates, compiles and runs a batch; entry is the executor function ("Run" for C01, "RunFuzz" for C15, …).
 func RunBatch(u *vk.Unit, tag string, specs []SpecCase, entry string, race bool) {
+	RunBatchOut(u, tag, specs, entry, race)
+}
+
+// RunBatchOut is RunBatch returning the executor's output (race reports are read from it).
+func RunBatchOut(u *vk.Unit, tag string, specs []SpecCase, entry string, race bool) string {
 	b, err := regen.NewBatch(tag)
 	if err != nil {
 		u.T.Fatalf("batch: %v", err)
@@ -90,7 +95,7 @@ func RunBatch(u *vk.Unit, tag string, specs []SpecCase, entry string, race bool)
 		}
 	}
 	if len(b.Pkgs) == 0 {
-		return
+		return ""
 	}
 	res := b.Build()
 	for _, e := range res.Failed {
@@ -98,16 +103,17 @@ func RunBatch(u *vk.Unit, tag string, specs []SpecCase, entry string, race bool)
 		u.Note("compile failure (C02's business, counted only): %s", tailStr(e, 300))
 	}
 	if len(res.OK) == 0 {
-		return
+		return ""
 	}
 	u.LabelN("compiled", len(res.OK))
 	out, err := b.RunAggregator(res.OK, "verif/internal/c01x", entry, race, []string{"VERIF_PART=" + tag})
-	if err != nil && !strings.Contains(out, "VIOLATION") {
+	if err != nil && !strings.Contains(out, "VIOLATION") && !strings.Contains(out, "WARNING: DATA RACE") {
 		u.T.Errorf("aggregator failed (harness trouble): %v\n%s", err, tailStr(out, 3000))
 	}
 	if strings.Contains(out, "HARNESS:") {
 		u.T.Errorf("harness problem reported by the executor:\n%s", tailStr(out, 3000))
 	}
+	return out
 }
 
 func StatusTable(g *gen.Generator) (map[string]map[string][]string, map[string][]int) {
